@@ -216,6 +216,21 @@ type vBlockSpec struct {
 	// Layout (instead of Content): the square is the sq layout of that name; there is no
 	// consensus block for it, only the extended header the availability path is given.
 	Layout string `json:"layout,omitempty"`
+	// Salt (0 = the height) selects the payload bytes: two heights with the same content or
+	// layout and the same salt carry the SAME non-empty square, hence the same data hash.
+	Salt int `json:"salt,omitempty"`
+	// Leftover: what an earlier put of this height, cut short by a crash, left in the store
+	// directory before the node starts: "nolink" = ODS (and Q4) file complete, height link missing
+	// (died between file creation and linking); "trunc" = ODS file cut in half, Q4 complete;
+	// "trunc0" = only the first bytes of the ODS file, no Q4 (died right after creating it).
+	Leftover string `json:"leftover,omitempty"`
+}
+
+func (s vBlockSpec) salt() int {
+	if s.Salt != 0 {
+		return s.Salt
+	}
+	return int(s.Height)
 }
 
 func (s vBlockSpec) String() string {
@@ -226,8 +241,14 @@ func (s vBlockSpec) String() string {
 	if s.Unbuildable {
 		x += ",unbuildable"
 	}
+	if s.Salt != 0 {
+		x += fmt.Sprintf(",payload#%d", s.Salt)
+	}
+	if s.Leftover != "" {
+		x += ",leftover=" + s.Leftover
+	}
 	if s.Layout != "" {
-		return fmt.Sprintf("h%d(%s,%s)", s.Height, s.TC, s.Layout)
+		return fmt.Sprintf("h%d(%s,%s%s)", s.Height, s.TC, s.Layout, x)
 	}
 	return fmt.Sprintf("h%d(%s,v%d,%s%s)", s.Height, s.TC, s.AppV, s.Content, x)
 }
@@ -291,13 +312,13 @@ func vMakeBlock(spec vBlockSpec) (*vBlock, error) {
 		if err != nil {
 			return nil, err
 		}
-		sqr, err := sq.Build(l, int(spec.Height))
+		sqr, err := sq.Build(l, spec.salt())
 		if err != nil {
 			return nil, err
 		}
 		eds = sqr.EDS
 	case spec.Unbuildable:
-		if txs, err = spec.Content.txs(int(spec.Height)); err != nil {
+		if txs, err = spec.Content.txs(spec.salt()); err != nil {
 			return nil, err
 		}
 		if len(spec.Content.Blobs) == 0 {
@@ -308,7 +329,7 @@ func vMakeBlock(spec vBlockSpec) (*vBlock, error) {
 			return nil, fmt.Errorf("harness: block %s was meant to be unbuildable", spec)
 		}
 	default:
-		if txs, err = spec.Content.txs(int(spec.Height)); err != nil {
+		if txs, err = spec.Content.txs(spec.salt()); err != nil {
 			return nil, err
 		}
 		if eds, err = vRefSquare(txs, spec.AppV); err != nil {
